@@ -84,6 +84,9 @@ func (s *scenario) dump() string {
 	if s.meet {
 		out = append(out, "meet")
 	}
+	if s.burst {
+		out = append(out, "burst")
+	}
 	return strings.Join(out, "; ")
 }
 
@@ -233,6 +236,8 @@ func parseScenario(text string) (*scenario, error) {
 			sc.gcFail = true
 		case "meet":
 			sc.meet = true
+		case "burst":
+			sc.burst = true
 		default:
 			return nil, bad
 		}
